@@ -9,6 +9,7 @@ import (
 	"database/sql"
 	"database/sql/driver"
 	"errors"
+	"github.com/yandex/mysync/internal/verif/emu"
 	"io"
 	"strings"
 
@@ -62,19 +63,25 @@ func Open(driverName, dsn string) (*DB, error) {
 	w.DBOpened(proc)
 	c := &connector{w: w, proc: proc, host: host}
 	db := sql.OpenDB(c)
+	handlesMu.Lock()
 	handles = append(handles, db)
+	handlesMu.Unlock()
 	return real.NewDb(db, driverName), nil
 }
 
 var handles []*sql.DB
+var handlesMu emu.Mutex
 
 // CloseAll closes every handle opened since the last call (harness teardown: a process that
 // exits takes its connection-opener goroutines with it; a bubble needs them gone explicitly).
 func CloseAll() {
-	for _, db := range handles {
+	handlesMu.Lock()
+	hs := handles
+	handles = nil
+	handlesMu.Unlock()
+	for _, db := range hs {
 		_ = db.Close()
 	}
-	handles = nil
 }
 
 type connector struct {
